@@ -72,7 +72,8 @@ class ARegridding(Adapter, ABC):
                 msg = "Target grid specification is already set, new specs differ"
                 raise FinamMetaDataError(msg)
 
-        self.input_grid = self.input_grid or in_info.grid
+        # data arrives in the layout of the delivered grid, not of a user-given one
+        self.input_grid = in_info.grid
         # masks can be arrays: no truth value
         self.input_mask = in_info.mask if self.input_mask is None else self.input_mask
         self.output_grid = self.output_grid or info.grid
